@@ -286,3 +286,30 @@ Section C02_system.
   Qed.
 End C02_system.
 Print Assumptions C02_system_agree.
+
+(* ---- the append store's Put is one critical section (per-run obligation over the sources) ----
+   The theorems above treat a Put on the store stack as one atomic step. In the code two writers
+   (the aggregator through tryAppend, a sync through tryNode) call appendStore.Put concurrently;
+   the round check against the cached head, the write to the stores below and the update of the
+   head are atomic because the whole body runs under the append store's mutex. That is read from
+   the source on every run (Gen/LockPaths.v, the event trees of C14): the function exists, calls
+   the store below, and makes every call with beacon.appendStore.Mutex held. The stack engine's
+   racing-writers history checks the same thing on the running code. *)
+From DV Require Import Model.Locks Model.Atomic Gen.LockPaths.
+
+Definition name_append_put : list Z :=
+  [98; 101; 97; 99; 111; 110; 46; 97; 112; 112; 101; 110; 100; 83; 116; 111; 114; 101; 46; 80; 117; 116] (* beacon.appendStore.Put *).
+Definition name_append_mutex : list Z :=
+  [98; 101; 97; 99; 111; 110; 46; 97; 112; 112; 101; 110; 100; 83; 116; 111; 114; 101; 46; 77; 117; 116; 101; 120] (* beacon.appendStore.Mutex *).
+
+Theorem C02_append_put_is_one_critical_section :
+  critical_section lock_funs lock_fun_names lock_mutexes name_append_put name_append_mutex = true.
+Proof. vm_compute. reflexivity. Qed.
+Print Assumptions C02_append_put_is_one_critical_section.
+
+(* regression shape (eighth-round seeded change): head copied under the lock, lock released, then
+   the checks and the write: the call is no longer inside the critical section *)
+Example C02_checks_outside_the_lock_rejected :
+  fst (calls_locked 3 false (PSeq (POp (OLock 3)) (PSeq (POp (OUnlock 3)) (PCall 5)))) = false /\
+  fst (calls_locked 3 false (PSeq (POp (OLock 3)) (PSeq (PDefer [OUnlock 3]) (PCall 5)))) = true.
+Proof. split; reflexivity. Qed.
